@@ -13,7 +13,7 @@ LEVEL = "exploration"
 RULE = ("DTLZ1 (k in {1,2,5}) and DTLZ2/3/4 (dimension m+9), m=2..5: position variables on the full lattice {0,.25,.5,.75,1}^(m-1) "
         "(DTLZ4 also {.9,.97,.99}); distance variables at 0.5 with every choice of <=2 (quick, m>=4: <=1) of them moved to each of "
         "{0,.25,.75,1,.55}; ZDT1: x0 on 9 levels x <=2 of the other 29 moved to {0,.25,1}; bi-objective: 21x21 lattice. "
-        "Identities recomputed with an independent g. Non-trivial = some distance variable off 0.5 or position off 0.5; "
+        "vectors as lists of floats, lists of numpy scalars and numpy arrays; five points in a row on one problem object, each evaluated twice (results must not alias or change, vectors must not be modified). Identities recomputed with an independent g. Non-trivial = some distance variable off 0.5 or position off 0.5; "
         "distinct = distinct (problem, point).")
 ASSUMPTIONS = ["lattice only: a finite set of box points, exhaustive for that set",
                "tolerance 1e-9 relative to (1+g) for the DTLZ identities, 1e-12 relative for ZDT1 and the bi-objective problem"]
@@ -33,10 +33,51 @@ def g_dtlz24(ys):
 
 def evaluate(problem, x, as_numpy=False):
     from artap.individual import Individual
+    if as_numpy == "ndarray":
+        import numpy as np
+        return problem.evaluate(Individual(np.array(x, dtype=float)))
     if as_numpy:
         import numpy as np
         x = [np.float64(v) for v in x]
     return problem.evaluate(Individual(list(x)))
+
+
+def check_sequence(name, m, k, points, as_numpy):
+    """Several points evaluated one after another on ONE problem object (as an algorithm does): every returned cost list
+    must still hold its own point's objectives afterwards, a second evaluation of the same individual must agree with
+    the first, and evaluation must not modify the design vector."""
+    from artap.individual import Individual
+    import numpy as np
+    p = problem_for(name, m, k)
+    out = []
+    kept = []
+    for x in points:
+        vec = np.array(x, dtype=float) if as_numpy == "ndarray" else ([np.float64(v) for v in x] if as_numpy else list(x))
+        ind = Individual(vec)
+        try:
+            r1 = p.evaluate(ind)
+            snap = [float(v) for v in r1]
+            after = [float(v) for v in ind.vector]
+            r2 = [float(v) for v in p.evaluate(ind)]
+        except Exception as e:
+            return [("C16:%s:sequence:exception:%s" % (name, type(e).__name__), "%s at %r raised %r" % (name, x, e))]
+        if after != [float(v) for v in x]:
+            out.append(("C16:%s:evaluate-modifies-the-vector" % name, "%s m=%d: vector %r became %r by evaluating it (vector type %s)" % (
+                name, m, x, after, "ndarray" if as_numpy == "ndarray" else "list")))
+        if r2 != snap:
+            out.append(("C16:%s:second-evaluation-differs" % name, "%s m=%d at %r: first %r, second evaluation of the same individual %r" % (name, m, x, snap, r2)))
+        kept.append((x, r1, snap))
+        if out:
+            return out
+    for x, obj, snap in kept:
+        if [float(v) for v in obj] != snap:
+            out.append(("C16:%s:earlier-result-overwritten" % name,
+                        "%s m=%d: the cost list returned for %r read %r when returned and %r after later evaluations" % (name, m, x, snap, [float(v) for v in obj])))
+            break
+        out += check_values(name, m, k, tuple(x), snap)
+        if out:
+            break
+    return out
 
 
 _cache = {}
@@ -60,13 +101,17 @@ def problem_for(name, m, k):
 
 
 def check_point(name, m, k, x, as_numpy=False):
-    out = []
     p = problem_for(name, m, k)
     try:
         f = evaluate(p, x, as_numpy)
         f = [float(v) for v in f]
     except Exception as e:
         return [("C16:%s:exception:%s" % (name, type(e).__name__), "%s(m=%d) at %r raised %r" % (name, m, x, e))]
+    return check_values(name, m, k, x, f)
+
+
+def check_values(name, m, k, x, f):
+    out = []
     desc = "%s m=%d k=%d x=%r -> %r" % (name, m, k, x, f)
     if any(not math.isfinite(v) for v in f):
         return [("C16:%s:not-finite" % name, desc)]
@@ -114,7 +159,28 @@ def distance_assignments(k, max_dev=2):
                 yield tuple(y)
 
 
+def seq_points(name, m, k):
+    """A short, varied sequence of box points for the one-object history check."""
+    n = {"ZDT1": 30, "BI": 2}.get(name, (m - 1) + k)
+    pts = []
+    for j in range(5):
+        if name == "BI":
+            pts.append((0.1 + 0.2 * j, 1.0 * j))
+        else:
+            pts.append(tuple(((3 * i + 7 * j) % 11) / 10.0 for i in range(n)))
+    return pts
+
+
 def _shard(shard, col: Collector):
+    if shard[0] == "seq":
+        _, name, m, k = shard
+        for as_numpy in (False, True, "ndarray"):
+            col.case()
+            col.nontrivial(("seq", name, m, k, str(as_numpy)))
+            for key, msg in check_sequence(name, m, k, seq_points(name, m, k), as_numpy):
+                col.violation(key, "seq", msg, {"name": name, "m": m, "k": k, "numpy": as_numpy})
+        col.sample({"kind": "one problem object, five points in a row, each evaluated twice", "problem": name, "m": m}, 1)
+        return
     name, m, k, as_numpy = shard[:4]
     if name in ("DTLZ1", "DTLZ2", "DTLZ3", "DTLZ4"):
         pos0, max_dev = shard[4], shard[5]
@@ -154,6 +220,8 @@ def _shard(shard, col: Collector):
 
 
 def replay(sub, case):
+    if sub == "seq":
+        return check_sequence(case["name"], case["m"], case["k"], seq_points(case["name"], case["m"], case["k"]), case["numpy"])
     return check_point(case["name"], case["m"], case["k"], tuple(case["x"]), case.get("numpy", False))
 
 
@@ -172,7 +240,12 @@ def run(tier, seed):
     for p0 in POS:
         shards += [("DTLZ2", 3, 10, True, p0, 1), ("DTLZ1", 3, 5, True, p0, 1)]
     shards += [("ZDT1", 2, 29, False), ("BI", 2, 0, False), ("BI", 2, 0, True)]
-    shards.sort(key=lambda s: -s[1])
+    for m in ms:
+        shards += [("seq", "DTLZ1", m, 3), ("seq", "DTLZ2", m, 10), ("seq", "DTLZ3", m, 10), ("seq", "DTLZ4", m, 10)]
+    shards += [("seq", "ZDT1", 2, 29), ("seq", "BI", 2, 0)]
+    for p0 in POS:
+        shards += [("DTLZ3", 3, 10, "ndarray", p0, 1), ("DTLZ1", 4, 2, "ndarray", p0, 1), ("DTLZ4", 2, 10, "ndarray", p0, 1)]
+    shards.sort(key=lambda s: -(s[1] if isinstance(s[1], int) else s[2]))
     col = run_shards(_shard, shards)
     return col, {"exhaustive": True, "scope": "lattice only (finite set of box points)",
                  "position_levels": POS, "distance_levels": DIST}
